@@ -417,7 +417,7 @@ def gen(rng, tier):
 def extra_checks(tier, rng, findings):
     """thorough: repeat the corpus and a quick-tier sample against a `--release` build of the harness
     (debug assertions and overflow checks off: `assume!` becomes unreachable_unchecked, wrapping is silent)."""
-    if tier != 'thorough':
+    if tier != 'thorough' and __import__('os').environ.get('VERIF_RELEASE_RERUN') != '1':
         return {}
     import vlib
     binpath, secs = vlib.build_harness(BIN, release=True)
